@@ -173,6 +173,7 @@ def _solve_bundles(tier, seed, find, props, modes, fams=None, dds=DD3, caches=("
             dict(n=3, b=3, d=2, setnext=0, nsym=6, depth_free=1),
             dict(n=3, b=2, d=2, setnext=1, nsym=5, bonus=1),
             dict(n=4, b=2, d=2, setnext=1, nsym=5, perm=1),
+            dict(n=3, b=3, d=3, setnext=1, nsym=4),  # three values per variable: wider layers, larger cut-sets and fringes
         ]
     out = []
     i = 0
